@@ -1140,7 +1140,8 @@ func (e *lexEnv) elemTag(el *lexElem) int {
 		return 0
 	}
 	if strings.HasPrefix(raw, "0x") {
-		v, err := strconv.ParseInt(raw[2:], 16, 32)
+		// a KMIP tag is a non-zero 3-byte number; any other text carries no tag (0)
+		v, err := strconv.ParseUint(raw[2:], 16, 24)
 		if err != nil {
 			return 0
 		}
